@@ -45,12 +45,13 @@ COQ_TARGETS = ["theories/Model/Inspect.vo", "theories/Model/InspectHints.vo", "t
 
 THEOREMS = [
     "C17H_field_list", "C17H_field_list_exact", "C17H_field_list_level", "C17H_members_agree", "C17H_kw_only_dropped",
-    "C17H_classvar_kept", "C17H_typing_path", "C17H_fallback", "C17H_td_signature_defaults", "C17H_tuple_members",
+    "C17H_classvar_kept", "C17H_typing_path", "C17H_fallback", "C17H_td_signature_required",
+    "C17H_td_signature_defaults", "C17H_tuple_members",
     "C17H_erase_fields",
     "C17H_refuted_classvar_member", "C17H_refuted_undecorated_annotation", "C17H_refuted_initvar_member",
     "C17H_refuted_namedtuple_extra_annotation", "C17H_refuted_plain_attribute_annotation",
-    "C17H_refuted_fallback_wrong_module", "C17H_refuted_fallback_drops_members", "C17H_refuted_td_totality",
-    "C17H_refuted_td_dict_attribute", "C17H_refuted_kw_only_in_signature", "C17H_refuted_full",
+    "C17H_refuted_pinned_fallback_module", "C17H_refuted_fallback_drops_members", "C17H_refuted_pinned_td_totality",
+    "C17H_refuted_pinned_td_dict_attribute", "C17H_refuted_kw_only_in_signature", "C17H_refuted_full",
 ]
 
 SKIP_MODULES = ("builtins", "typing", "typing_extensions", "abc", "collections.abc", "collections", "enum")
@@ -336,11 +337,15 @@ class ClassDesc:
         key = cat.cls_by_obj.get(id(cls))
         if key is None:
             raise Unencodable(f"class {cls!r} has no row")
+        req = getattr(cls, "__required_keys__", frozenset()) if self.flavour == "FlTypedDict" else frozenset()
+        required = [k for k in dict.fromkeys(k for _, ks in parts for k in ks) if k in req]
+        required += sorted(k for k in req if k not in required)
         self.term = ("{| c_cls := %d%%N; c_flavour := %s; c_mro := %s; c_fields := %s; c_total := %s; c_parts := %s; "
-                     "c_attrs := %s; c_slots := %s; c_members := %s; c_sigless := %s |}") % (
+                     "c_required := %s; c_attrs := %s; c_slots := %s; c_members := %s; c_sigless := %s |}") % (
             cat.cid[key], self.flavour, coq_list(klasses, "klass"), emit_names(fields),
             coq_bool(getattr(cls, "__total__", True)),
             coq_list([f"({coq_bool(t)}, {emit_names(ks)})" for t, ks in parts], "(bool * list string)"),
+            emit_names(required),
             emit_names(attrs), cslots,
             coq_list([f"({cstr(n)}, {k})" for n, k in members], "(string * mkind)"), coq_bool(sigless))
 
@@ -987,14 +992,17 @@ def replay_witnesses():
     case("C17H_refuted_plain_attribute_annotation",
          lambda: (names(a.PAttr) == ["a", "c", "e"] and list(inspect.signature(a.PAttr).parameters) == ["a"], names(a.PAttr)))
 
-    def wrong_module():
+    def declaring_module():
         impl.drop_module(MOD_A); impl.drop_module(MOD_B)
         a2, b2 = hand_modules()                       # Later unbound again
         h = I.get_type_hints(b2.FLateInherit, True)
         r = h["a"]
         ev = typing.ForwardRef._evaluate(r, None, None, recursive_guard=frozenset()) if isinstance(r, typing.ForwardRef) else r
-        return (isinstance(r, typing.ForwardRef) and r.__forward_module__ == MOD_B and ev is str and a2.Thing is int), (r, ev)
-    case("C17H_refuted_fallback_wrong_module", wrong_module)
+        r2 = I.get_type_hints(b2.FOnlyInitSub, True)["b"]
+        return (isinstance(r, typing.ForwardRef) and r.__forward_module__ == MOD_A and ev is int and b2.Thing is str
+                and isinstance(r2, typing.ForwardRef) and r2.__forward_module__ == MOD_A), (r, ev, r2)
+    case("C17H_fallback_declaring_module (repaired: an inherited string annotation is evaluated where it is declared)",
+         declaring_module)
 
     def drops():
         impl.drop_module(MOD_A); impl.drop_module(MOD_B)
@@ -1005,14 +1013,15 @@ def replay_witnesses():
     def totality():
         s = I.typed_dict_signature(a.TDMixed)
         d = {k: p.default is not p.empty for k, p in s.parameters.items()}
-        return d["a"] is True and "a" in a.TDMixed.__required_keys__, (d, sorted(a.TDMixed.__required_keys__))
-    case("C17H_refuted_td_totality", totality)
+        return d == {"a": False, "keys": False, "b": True} and "a" in a.TDMixed.__required_keys__, \
+            (d, sorted(a.TDMixed.__required_keys__))
+    case("C17H_td_signature_repaired (an inherited required key of a total=False subclass has no default)", totality)
 
     def dict_attr():
         s = I.typed_dict_signature(a.TD0)
         p = s.parameters["keys"]
-        return p.default is not p.empty and "keys" in a.TD0.__required_keys__, p
-    case("C17H_refuted_td_dict_attribute", dict_attr)
+        return p.default is p.empty and "keys" in a.TD0.__required_keys__, p
+    case("C17H_td_signature_repaired (a key named like a dict method has no default)", dict_attr)
     case("C17H_refuted_kw_only_in_signature",
          lambda: (I.get_type_hints(a.OnlyInitKw, True).get("m") is dataclasses.KW_ONLY, I.get_type_hints(a.OnlyInitKw, True)))
     impl.drop_module(MOD_A); impl.drop_module(MOD_B)
@@ -1159,14 +1168,14 @@ def expected_members(cls):
         return None
     if any(p.kind not in (p.POSITIONAL_OR_KEYWORD, p.KEYWORD_ONLY) for p in ps):
         return None
-    definer = next((k for k in cls.__mro__ if "__init__" in vars(k) or "__new__" in vars(k)), cls)
+    definer = next((k for k in cls.__mro__ if k is not object and ("__init__" in vars(k) or "__new__" in vars(k))), cls)
     exp = {}
     for p in ps:
         a = p.annotation
         if a is p.empty:
             exp[p.name] = typing.Any
         elif isinstance(a, str):
-            if strip_lead(cls.__module__, a) != a or definer.__module__ != cls.__module__:
+            if strip_lead(definer.__module__, a) != a:
                 return None
             r = ev_live(definer.__module__, a)
             if r is None:
@@ -1263,13 +1272,28 @@ def oracle_class(cls):
         if list(s.parameters) != list(th) or any(p.kind is not p.KEYWORD_ONLY for p in s.parameters.values()) \
                 or any(s.parameters[k].annotation != th[k] for k in th):
             fail("typed_dict_signature", "parameters are not the keys of the TypedDict", s, th)
-        parts = td_parts(cls)
-        uniform = all(t == getattr(cls, "__total__", True) for t, _ in parts)
-        if uniform and not any(hasattr(cls, k) for k in th):
-            req = getattr(cls, "__required_keys__", frozenset())
-            bad = [k for k, p in s.parameters.items() if (p.default is p.empty) != (k in req)]
-            if bad:
-                fail("typed_dict_signature", "a key has a default although it is required (or the reverse)", bad, sorted(req))
+        req = set(getattr(cls, "__required_keys__", frozenset()))
+        try:                              # Required / NotRequired hidden in string annotations
+            import typing_extensions as te
+            for k, h in te.get_type_hints(cls, include_extras=True).items():
+                if te.get_origin(h) is te.Required:
+                    req.add(k)
+                elif te.get_origin(h) is te.NotRequired:
+                    req.discard(k)
+        except Exception:  # noqa: BLE001
+            pass
+        bad = [k for k, p in s.parameters.items() if (p.default is p.empty) != (k in req)]
+        if bad:
+            fail("typed_dict_signature", "a key has a default although it is required (or the reverse)", bad, sorted(req))
+    # a reference built by the signature fallback names the module that declares the annotation
+    if th is None and dataclasses.is_dataclass(cls):
+        n += 1
+        for k, v in got.items():
+            if isinstance(v, typing.ForwardRef) and v.__forward_module__:
+                decl = next((b for b in cls.__mro__ if k in vars(b).get("__annotations__", {})), None)
+                if decl is not None and decl.__module__ != v.__forward_module__:
+                    fail("get_type_hints", "the fallback evaluates an inherited annotation in another module than the one "
+                         "that declares it", v, decl.__module__)
     sl = getattr(cls, "__slots__", None)
     if sl:
         n += 1
